@@ -178,3 +178,13 @@ func (s *Server) VerifWillDelayed() string {
 	sort.Strings(ids)
 	return strings.Join(ids, ",")
 }
+
+// VerifYield, when set by a verification harness, is called at the named points of the connection
+// and publish paths so that a harness can park goroutines there and release them in a chosen order.
+var VerifYield func(point string, cl *Client)
+
+func verifYield(point string, cl *Client) {
+	if f := VerifYield; f != nil {
+		f(point, cl)
+	}
+}
